@@ -446,6 +446,35 @@ func (o *Oracle) report(idx int, op Op, res string, pre, post *Dump) {
 			}
 		}
 	}
+	// ... and every shard whose view names a recorded NodeHost as the address of a member (placement must not put a second
+	// member of the shard there)
+	{
+		hosts := []string{}
+		for ha := range post.NodeHostImage.Nodehosts {
+			hosts = append(hosts, ha)
+		}
+		sort.Strings(hosts)
+		sids := sortedU(post.ShardImage.Shards)
+	outer:
+		for _, ha := range hosts {
+			hrec := post.NodeHostImage.Nodehosts[ha]
+			for _, sid := range sids {
+				v := post.ShardImage.Shards[sid]
+				for _, rid := range sortedU(v.Replicas) {
+					if v.Replicas[rid].Address != ha {
+						continue
+					}
+					o.Run.Count("c08:member_host_shard_record_checked")
+					if _, ok := hrec.Shards[sid]; !ok {
+						why := fmt.Sprintf("after the report of %s: Drummer's view of shard %d has member %d at %s, its record of the shards on %s is %v: placement would treat that host as free for shard %d", a, sid, rid, ha, ha, sortedU(hrec.Shards), sid)
+						o.fail("C08", "plan_valid", "member-host-shard-not-recorded", why, idx)
+						o.fail("C02", "no_colocation", "member-host-shard-not-recorded", why, idx)
+						break outer
+					}
+				}
+			}
+		}
+	}
 	// C04: the view is the membership of the complete entry with the highest version so far
 	T := pre.Tick
 	for i := range op.Infos {
